@@ -113,7 +113,7 @@ partial def misfit : DExpr → FVec → Float
   | logT base inner b, x =>
       let y := x.map (Dist.logForward Float.log base)
       if y.anyP Float.isNaN then finf
-      else misfit inner y - (FVec.sum (x.map (fun m => Float.log (Dist.logJac Float.log base m)))) + b.misfitBounds x
+      else misfit inner y - (FVec.sum (x.map (fun m => Float.log (Float.abs (Dist.logJac Float.log base m))))) + b.misfitBounds x
 
 partial def grad : DExpr → FVec → FVec
   | stdNormal T _, x => ⟨#[Dist.stdNormalGrad T (x.get 0)]⟩
@@ -172,9 +172,10 @@ def asRows (flat : List Float) (d rep : Nat) : List FVec :=
 
 /-- `generate(repeat, rng)`: returns the `d` rows of the `(d, repeat)` result and the remaining draws -/
 partial def generate : DExpr → Nat → Draws → List FVec × Draws
-  | stdNormal _ _, rep, dr =>
+  | stdNormal T _, rep, dr =>
+      -- misfit m² / (2T): standard deviation √T
       let (z, rest) := takeN dr.normals rep
-      ([FVec.ofList z], { dr with normals := rest })
+      ([FVec.ofList (z.map (fun v => 0.0 + Float.sqrt T * v))], { dr with normals := rest })
   | normalDiag mu var _ _, rep, dr =>
       let d := mu.size
       let (z, rest) := takeN dr.normals (d * rep)
@@ -211,14 +212,19 @@ partial def generate : DExpr → Nat → Draws → List FVec × Draws
       let cum := w.a.toList.foldl (fun (acc : List Float) wi => acc ++ [(acc.getLast?.getD 0.0) + wi]) []
       let k := parts.length
       let pick := us.map (fun u => min ((cum.filter (fun c => c <= u)).length) (k - 1))
-      -- components in increasing index order, each generating its count
+      -- components in increasing index order, each generating its count; the draws of component `idx` go to the
+      -- columns whose label is `idx` (every column is a draw from the mixture), in order
       let d := match parts with | p :: _ => dim p | [] => 0
       let res := (List.range k).foldl (fun (acc : List FVec × Draws) idx =>
         let cnt := (pick.filter (· == idx)).length
         if cnt == 0 then acc else
           let (rows, dr') := generate (parts.getD idx default) cnt acc.2
-          ((List.range d).map (fun i => ⟨(acc.1.getD i ⟨#[]⟩).a ++ (rows.getD i ⟨#[]⟩).a⟩), dr'))
-        ((List.range d).map (fun _ => (⟨#[]⟩ : FVec)), { dr with uniforms := rest })
+          let cols := (List.range rep).filter (fun j => pick.getD j 0 == idx)
+          ((List.range d).map (fun i =>
+              let row := acc.1.getD i (FVec.const rep 0.0)
+              let src := rows.getD i ⟨#[]⟩
+              ⟨(List.zip cols (List.range cnt)).foldl (fun (a : Array Float) cj => a.set! cj.1 (src.get cj.2)) row.a⟩), dr'))
+        ((List.range d).map (fun _ => FVec.const rep 0.0), { dr with uniforms := rest })
       res
   | logT base inner _, rep, dr =>
       let (rows, dr') := generate inner rep dr
